@@ -37,6 +37,8 @@ def hashseed_for(seed):
 
 def ensure_hashseed(seed, force=None):
     """Re-exec the interpreter so that PYTHONHASHSEED is a function of VERIF_SEED."""
+    if force is None and os.environ.get("BBSIM_FORCE_HASHSEED"):
+        force = int(os.environ["BBSIM_FORCE_HASHSEED"])      # self-test: another controller hash seed
     want = str(force if force is not None else hashseed_for(seed))
     if os.environ.get("PYTHONHASHSEED") == want and os.environ.get("BBSIM_REEXEC") == "1":
         return int(want)
@@ -88,10 +90,12 @@ def one_run(mod, prop, seed, idx, ctx, want_plan=False):
     plan["idx"] = idx
     if ctx.get("cold") is not None and idx % COLD_EVERY == COLD_EVERY - 1:
         plan["cold"] = True
+    gen_sha = D.sha(plan["steps"])       # the generated plan: a function of VERIF_SEED alone
     if hasattr(mod, "prepare"):
-        plan = mod.prepare(plan, ctx)
+        plan = mod.prepare(plan, ctx)    # fault instants resolved by a dry run of the code under test
     res = mod.run(plan, ctx)
     res["plan_sha"] = D.sha(plan["steps"])
+    res["gen_sha"] = gen_sha
     return plan, res
 
 
@@ -121,7 +125,7 @@ def worker_main(mod, prop, seed, indices, wfd, deadline, sample_idx, cold=None):
                 out.write(json.dumps({"type": "harness_error", "idx": idx,
                                       "error": traceback.format_exc()[-2000:]}) + "\n")
                 continue
-            msg = {"type": "run", "idx": idx, "plan_sha": res["plan_sha"], "log": res["log"],
+            msg = {"type": "run", "idx": idx, "plan_sha": res["plan_sha"], "gen_sha": res["gen_sha"], "log": res["log"],
                    "stats": res["stats"], "nontrivial": res["nontrivial"], "nviol": len(res["violations"])}
             if idx in sample_idx:
                 msg["sample"] = trim_plan(plan)
@@ -206,21 +210,12 @@ def replay(prop, path, quiet=False):
         shutil.rmtree(ctx["dir"], ignore_errors=True)
     want = doc.get("violation", {}).get("inv")
     same = [v for v in res["violations"] if v["inv"] == want] if want else res["violations"]
-    print(json.dumps({"replay": path, "violations": res["violations"][:5], "log": res["log"]}))
-    if same:
-        print("VIOLATION property=%s replay=%s" % (prop, path))
-        return 1
+    print(json.dumps({"replay": path, "recorded_invariant": want, "same_invariant_again": bool(same),
+                      "violations": res["violations"][:5], "log": res["log"]}))
     if res["violations"]:
         print("VIOLATION property=%s replay=%s" % (prop, path))
         return 1
     return 0
-
-
-def _replay_child(modname, plan, ctx):
-    # runs in a fork so that the replaying interpreter itself stays a zygote
-    mod = importlib.import_module(modname)
-    # nested forks are fine: this child forks H and P from its own (still pristine) image
-    return mod.run(plan, ctx)
 
 
 def merge_stats(total, s):
@@ -240,7 +235,7 @@ def batch(prop, tier, seed, workers, nruns, budget_s=None):
     colds = [procs.ColdServer() for _ in range(workers)] if getattr(mod, "USES_COLD", False) else []
     zygote.warm_up(os.path.join(VERIF, "corpus"))
     nominal = 60 if tier == "quick" else 600
-    deadline = t0 + (budget_s or nominal * 5)
+    deadline = t0 + (budget_s or nominal * 10)
     sample_idx = {0, 1, 2}
     pipes = []
     for k in range(workers):
@@ -326,7 +321,8 @@ def batch(prop, tier, seed, workers, nruns, budget_s=None):
         env.pop("BBSIM_REEXEC", None)
         p = subprocess.run([sys.executable, "-m", "bbsim.main", prop, "--replay", m["replay"]],
                            cwd=VERIF, env=env, capture_output=True, text=True, timeout=600)
-        if p.returncode == 1 and "VIOLATION property=%s" % prop in p.stdout:
+        if p.returncode == 1 and "VIOLATION property=%s" % prop in p.stdout and \
+                '"same_invariant_again": true' in p.stdout:
             confirmed.append(m)
         else:
             harness_errors.append("run %d: violation %s did not reproduce from %s (exit %d): %s" %
@@ -349,7 +345,7 @@ def batch(prop, tier, seed, workers, nruns, budget_s=None):
     if os.environ.get("BBSIM_DUMP_LOGS"):
         with open(os.environ["BBSIM_DUMP_LOGS"], "w") as f:
             for m in runs:
-                f.write(json.dumps([m["idx"], m["plan_sha"], m["log"], m["nviol"]]) + "\n")
+                f.write(json.dumps([m["idx"], m["plan_sha"], m["log"], m["nviol"], m["gen_sha"]]) + "\n")
     ev = {
         "property_id": prop, "tier": tier, "seed": seed, "level": "exploration",
         "coverage": {
@@ -382,6 +378,9 @@ def batch(prop, tier, seed, workers, nruns, budget_s=None):
         json.dump(ev, f, indent=1)
     print("%s tier=%s seed=%d runs=%d distinct_nontrivial=%d wall=%.1fs log=%s" %
           (prop, tier, seed, len(runs), nontrivial, wall, log_digest))
+    if stopped_early:
+        print("NOTE wall-clock cap reached: %d of %d requested runs were executed (reported in the evidence; "
+              "the verdict covers the executed runs only)" % (len(runs), nruns))
     seen_known = set()
     for k, m in known_hits:
         key = k.get("what")
